@@ -109,10 +109,31 @@ def rule_channel(ctx):
                     muts.add(m)
             elif c["q"] == "std::ops::IndexMut::index_mut" and any(t.startswith("std::collections::VecDeque<") for t in tys):
                 muts.add("index_mut")
+            elif c["q"] in ("std::mem::take", "std::mem::replace", "std::mem::swap") and any(t.startswith("std::collections::VecDeque<") for t in tys):
+                muts.add("mem::" + c["q"].rsplit("::", 1)[1])       # the whole pending queue is moved out / replaced
+        for b in g.blocks:
+            for st in b["s"]:
+                if st["k"] == "assign" and st.get("p", {}).get("pr") and st["p"]["pr"][-1] == "*" and "t" in st["p"] and g.ty(st["p"]["t"]).s.startswith("std::collections::VecDeque<"):
+                    muts.add("whole-queue assignment")
     allowed = {"retain", "push_back", "pop_front", "remove"}
     okm = muts <= allowed and {"push_back", "pop_front"} <= muts
     ctx.ob(R, "buffer mutators", okm, "VecDeque mutators used in prunable_mpsc: %s (FIFO among retained)" % sorted(muts) if okm else
            "the pending queue is mutated by %s (allowed: order-preserving removal, push_back, pop_front): retained messages are no longer delivered in arrival order" % sorted(muts - allowed or muts))
+    # everything that is pending is in the one queue the selection function sees: neither end of the channel keeps a
+    # queue of its own (a receiver-side batch would hide pending messages from pruning)
+    priv = []
+    for an in (MPSC + "::Receiver", MPSC + "::Sender", MPSC + "::Shared"):
+        ad = ctx.F.adts.get(an)
+        for v in (ad or {}).get("variants", []):
+            for fl in v["fields"]:
+                ty = ad["_types"][fl["t"]].s
+                inner = ty
+                if "watch::" in ty:
+                    continue            # the shared queue itself
+                if any(k in inner for k in ("VecDeque<", "std::vec::Vec<", "BinaryHeap<", "LinkedList<", "BTreeMap<", "HashMap<")):
+                    priv.append("%s.%s: %s" % (an.rsplit("::", 1)[1], fl["name"], ty[:60]))
+    ctx.ob(R, "no private queue", not priv, "Sender / Receiver / Shared hold no collection besides the watched queue" if not priv else
+           "an end of the channel keeps messages in a collection of its own (%s): they are pending but invisible to the selection function, so a newer vote cannot supersede them" % priv[:2])
     kids = [g for g in ctx.F.fns if g.parent is send]
     outer = [g for g in kids if any(c["q"].endswith("VecDeque::retain") for c in ctx.T(g).calls())]
     if not outer:
